@@ -250,6 +250,14 @@ func runPackCase(base string, c *pCase) (obs *pObs, infra string) {
 				defer func() { recover() }()
 				var sink bytes.Buffer
 				p.Pack(other, &sink)
+				// ... and an unrelated Pack whose rule file begins with a negation (rule parsing starts from the
+				// process-wide default rules)
+				if d, err := os.MkdirTemp(base, "cc-"); err == nil {
+					os.WriteFile(d+"/.terraformignore", []byte("!x\ny\n"), 0644)
+					var sink2 bytes.Buffer
+					slug.Pack(d, &sink2, false)
+					os.RemoveAll(d)
+				}
 			}()
 			go func() { wg.Wait(); close(gate) }()
 			sinkW = &gateWriter{w: &buf, gate: gate}
